@@ -540,6 +540,12 @@ class ClientResponse(HeadersMixin):
                     set_result(self._continue, True)
                     self._continue = None
 
+                if self.__writer is None:
+                    # An interim response: the final one is still awaited.
+                    # The read timeout was dropped with the interim message;
+                    # nothing is being sent that would re-arm it later.
+                    protocol.start_timeout()  # type: ignore[union-attr]
+
         # payload eof handler
         payload.on_eof(self._response_eof)
 
